@@ -46,6 +46,15 @@ CHECKS["C03"] = (
     "DESIGN.md section 3, C03",
 )
 
+CHECKS["C08"] = (
+    "exhaustive enumeration of (interface x format) with 4-round conversion histories on the implementation, exact state comparison",
+    "Every interface of the alphabet (including trigger-word descriptions, untyped parameters, non-suffix defaults) x 12 format variants is "
+    "driven through four consecutive emit->render->parse rounds on the real code; the state after round 1 must equal the states after "
+    "rounds 2, 3 and 4 exactly (raw descriptions, type strings, default values and their Python types).",
+    "a failing first round is C02/C05/C06's subject, not a fixpoint violation; determinism of the code makes a repeated state a self-loop",
+    "DESIGN.md section 3, C08",
+)
+
 PENDING_REASON = "check not built yet in this revision (planned, see DESIGN.md section 3); no claim is made"
 
 
